@@ -168,7 +168,7 @@ def accuracy():
     import rsome as rso
     out = []
 
-    def approx(xv, zv, degree):
+    def approx(xv, zv, degree, cuts=None):
         m = nro.Model()
         y = m.dvar()
         x = m.dvar()
@@ -176,8 +176,31 @@ def accuracy():
         m.min(y)
         m.st(rso.expcone(y, x, z), x == xv, z == zv)
         with _quiet():
-            m.soc_solve(eco, degree=degree, display=False)
-        return m.get()
+            if cuts is None:
+                m.soc_solve(eco, degree=degree, display=False)
+            else:
+                m.soc_solve(eco, degree=degree, cuts=cuts, display=False)
+        try:
+            return m.get()
+        except RuntimeError:
+            return float("nan")
+
+    # user-chosen cut-offs that enclose the exponents tightly, and a high degree (both sampled, both recorded findings)
+    def call_cuts(ns):
+        return [(r, math.exp(r), approx(r, 1.0, 4, (-4.0, 4.0))) for r in (-3.75, -3.5, -3.25, -3.0, -1.0, 0.0, 2.0, 3.5)]
+    obs, _ = check_function("rsome.ro:Model.soc_solve", lambda c: {}, call_cuts,
+                            [post("relative-error-at-most-1e-3-inside-user-cut-offs (sampled)",
+                                  lambda ns, res: all(abs(v - ex) <= 1e-3 * ex + 1e-6 for _, ex, v in res))],
+                            mode="N", label="cuts=(-4,4), degree 4, exponents strictly inside the cut-offs", bounded=True, replay=None)
+    out += obs
+
+    def call_deg(ns):
+        return [(r, d, math.exp(r), approx(r, 1.0, d)) for d in (8, 10) for r in (-4.0, 0.5, 2.0, 4.0)]
+    obs, _ = check_function("rsome.ro:Model.soc_solve", lambda c: {}, call_deg,
+                            [post("relative-error-at-most-1e-3-at-degrees-8-and-10 (sampled)",
+                                  lambda ns, res: all(abs(v - ex) <= 1e-3 * ex + 1e-6 for _, _d, ex, v in res))],
+                            mode="N", label="degrees 8 and 10, ECOS", bounded=True, replay=None)
+    out += obs
 
     for zv in (0.5, 1.0, 3.0):
         def setup(c, zv=zv):
@@ -231,14 +254,20 @@ def front_ends():
 
             class S:
                 @staticmethod
-                def solve(formula, *a, **k):
+                def solve(formula, display=True, log=False, params={}):
                     seen.append(formula)
+                    args.append((display, log, params))
                     return lp.Solution("rec", 0.0, np.zeros(formula.linear.shape[1]), 0, 0.0)
-            return {"m": m, "P": P, "before": D.snapshot_prog(P), "S": S, "seen": seen}
+            args = []
+            return {"m": m, "P": P, "before": D.snapshot_prog(P), "S": S, "seen": seen, "args": args}
 
         def call(ns):
-            ns["m"].soc_solve(ns["S"], display=False)
+            ns["m"].soc_solve(ns["S"], display=False, params={"TimeLimit": 7})
             return ns["seen"]
+
+        def plumbing(ns, seen):
+            # the interface is called as solve(formula, display, log, params): the user's parameters arrive as parameters
+            return len(ns["args"]) == 1 and ns["args"][0][0] is False and ns["args"][0][2] == {"TimeLimit": 7} and ns["args"][0][1] in (False, True)
 
         def handed(ns, seen):
             return len(seen) == 1 and list(getattr(seen[0], "xmat", [])) == [] and len(seen[0].qmat) > len(ns["before"]["qmat"]) \
@@ -247,7 +276,8 @@ def front_ends():
         def untouched(ns, seen):
             return p_and(D.prog_unchanged(ns["before"], ns["P"]), ns["m"].do_math() is ns["P"])
         obs, _ = check_function(f"rsome.{front}:Model.soc_solve", setup, call,
-                                [post("solver-receives-the-cone-free-approximation", handed), post("cached-primal-untouched", untouched)],
+                                [post("solver-receives-the-cone-free-approximation", handed), post("cached-primal-untouched", untouched),
+                                 post("display-and-params-reach-the-interface-in-their-own-slots", plumbing)],
                                 mode="D", label=front, bounded=True)
         out += obs
     return out
